@@ -42,8 +42,8 @@ GEOMS = {                     # df [Hz], dt [s], fch1 [Hz]
 }
 SIZES_Q = [(1, 5), (6, 2), (2, 5), (5, 1), (4, 9), (3, 16)]            # (tchans, fchans)
 SIZES_T = [(1, 1), (1, 5), (2, 2), (6, 2), (2, 5), (5, 1), (4, 9), (3, 16), (9, 4), (16, 33), (7, 64)]
-KINDS_Q = ['syn', 'syn_wf', 'fil']
-KINDS_T = ['syn', 'syn_wf', 'fil', 'h5', 'sliced', 'fil_sliced']
+KINDS_Q = ['syn', 'syn_wf', 'fil', 'syn0']
+KINDS_T = ['syn', 'syn_wf', 'fil', 'h5', 'sliced', 'fil_sliced', 'syn0']
 Q_BASE_Q = [0.3, 0.5, 1.0, 1.7, 2.0]
 Q_BASE_T = [0.05, 0.3, 0.5, 0.99, 1.0, 1.01, 1.5, 1.7, 2.0, 2.5, 3.3, 7.0]
 AXES = ['t', 'f', 0, 1]
@@ -78,8 +78,10 @@ def _synthetic(c, n):
     import setigen as stg
     df, dt, fch1 = GEOMS[c['geom']]
     data = R.ramp(c['m'], n, c['seed'])
+    # 'syn0': a parent at the Unix epoch with an empty source name (falsy values must be carried over like any other)
+    t0, nm = (0.0, '') if c.get('kind') == 'syn0' else (T0, NAME)
     return stg.Frame(shape=(c['m'], n), df=df, dt=dt, fch1=fch1, ascending=c['asc'], data=data,
-                     t_start=T0, source_name=NAME, seed=c['seed'])
+                     t_start=t0, source_name=nm, seed=c['seed'])
 
 
 def _loaded(c, n, ext='fil'):
@@ -96,7 +98,7 @@ def _parent(c):
     """A fresh parent frame of the requested kind (never a deepcopy of another one)."""
     kind, n = c['kind'], c['n']
     with contextlib.redirect_stdout(io.StringIO()):
-        if kind == 'syn':
+        if kind in ('syn', 'syn0'):
             return _synthetic(c, n)
         if kind == 'syn_wf':
             fr = _synthetic(c, n)
@@ -127,6 +129,9 @@ def _fs_close(got, want):
 
 def _meta_checks(P, C, V, site, kind):
     """Orientation, resolutions, start time, source name.  kind: 'frame' | 'spectrum' | 'timeseries'."""
+    if getattr(C, 'metadata', None) is not None and C.metadata is getattr(P, 'metadata', None):
+        V(site, 'metadata_shared', 'the derived frame and its parent share ONE metadata dictionary (a drift_rate recorded on one '
+          'is then used when the other is de-drifted from its metadata)')
     if bool(C.ascending) != bool(P.ascending):
         V(site, 'orientation', 'ascending=%r, parent %r' % (C.ascending, P.ascending))
     if kind == 'timeseries':
